@@ -123,11 +123,36 @@ fn run_shape<OC: GenericConfig<D, F = F>>(s: &Value, selftest_all: bool) -> Vec<
                     cases.push((p, own_vd.clone(), json!({"second": true})));
                 }
             }
+        } else if c == "pow_short1" || c == "pow_exact" {
+            // boundary of the grinding condition: exactly pow_bits - 1 / exactly pow_bits leading zeros
+            let bits = common.config.fri_config.proof_of_work_bits;
+            let zeros = if c == "pow_short1" { bits.wrapping_sub(1) } else { bits };
+            if bits >= 1 && bits <= 10 && !common.config.zero_knowledge {
+                if let Some(w) = find_pow_witness(&honest, &own_vd, &common, zeros, 6000, &mut r) {
+                    let mut k = plonky2::verif_knobs::Knobs::default();
+                    k.pow_witness = Some(w);
+                    if let Ok(p) = inner.prove(Some(k)) {
+                        let got = pow_response(&p, &own_vd, &common).map(|x| x.leading_zeros());
+                        if got == Some(zeros) {
+                            cases.push((p, own_vd.clone(), json!({"pow_witness": w, "leading_zeros": zeros, "pow_bits": bits})));
+                        }
+                    }
+                }
+            }
         } else if STATIC.contains(&split_class(c).0) {
-            for _ in 0..per_class {
-                let mut p = honest.clone();
-                if let Some(d) = tamper(&mut p, c, &mut r) {
-                    cases.push((p, own_vd.clone(), d));
+            let base = split_class(c).0;
+            // a sibling of EVERY commit-phase layer: the model's middle layer stands for all real middle layers
+            let mut layers: Vec<Option<usize>> = vec![split_class(c).1.map(|l| model_layer(l, nlayers))];
+            if base == "step_path" && nlayers > 3 && split_class(c).1 == Some(1) {
+                layers = (1..nlayers - 1).map(Some).collect();
+            }
+            let reps = if matches!(base, "init_path" | "step_path") { 1 } else { per_class };
+            for real in layers {
+                for _ in 0..reps {
+                    let mut p = honest.clone();
+                    if let Some(d) = tamper_at(&mut p, c, real, &mut r) {
+                        cases.push((p, own_vd.clone(), d));
+                    }
                 }
             }
         } else if VDC.contains(&c) {
